@@ -888,6 +888,44 @@ def make_items(probes):
     return items, len(batchable), len(solos)
 
 
+# ----------------------------------------------------------------------------- out-of-domain calls inside callbacks (round 7)
+# "Outside the domain the program stops with a failure rather than continuing": also when the built-in is called from a
+# function that `map` / `filter` runs per element.  (id, failing expression over captured variables, result type)
+CB_AFTER = "@@C14-AFTER-CALLBACK@@"
+CB_DECLS = ('bf = 3000000000.5\nsx = "xy"\ns10 = "10"\nn300 = 300\nb2 = B2\nbig = B99999999999\nneg1 = -1\n'
+            'lq: [int...] = [1, 2, 3]\n')
+CB_FAILS = [("to_int_of_large_float", "bf.to_int()", "int"), ("substring_past_end", "sx.substring(0, 3)", "str"),
+            ("parse_int_radix_37", "(s10.parse_int_radix(37)) or 0", "int"), ("to_byte_of_300", "n300.to_byte()", "byte"),
+            ("pow_overflow", "b2.pow(200)", "bigint"), ("insert_past_end", "sx.insert(\"x\", 9)", "str"),
+            ("delete_past_end", "sx.delete(1, 9)", "str"), ("to_int_of_large_bigint", "big.to_int()", "int"),
+            ("pow_negative_exponent", "b2.pow(neg1)", "bigint")]
+
+
+def callback_scripts():
+    out = []
+    for cid, expr, ty in CB_FAILS:
+        out.append(("callback:map:%s" % cid, CB_DECLS + "rq = lq.map(fn(x: int) -> %s {\n  return %s\n})\nprint \"%s\"\nprint rq\n" % (ty, expr, CB_AFTER)))
+        out.append(("callback:filter:%s" % cid, CB_DECLS + "rq = lq.filter(fn(x: int) -> bool {\n  yq = %s\n  return x > 1\n})\nprint \"%s\"\nprint rq\n" % (expr, CB_AFTER)))
+        out.append(("callback:map_via_helper:%s" % cid, CB_DECLS + "hq = fn() -> %s {\n  return %s\n}\nrq = lq.map(fn(x: int) -> %s {\n  return hq()\n})\nprint \"%s\"\nprint rq\n" % (ty, expr, ty, CB_AFTER)))
+        out.append(("callback:control_direct:%s" % cid, CB_DECLS + "yq = %s\nprint \"%s\"\n" % (expr, CB_AFTER)))
+    return out
+
+
+def work_callback(item):
+    cid, src = item
+    r, _, _ = core.run_program({"main.ms": src}, cpu=10)
+    res = {"id": cid, "files": {"main.ms": src}, "run": r.brief()}
+    if r.cls in ("wall_timeout", "cpu_timeout", "spawn_error"):
+        res["verdict"] = "inconclusive"
+    elif core.compile_rejected(r):
+        res["verdict"] = "rejected"
+    elif r.cls == "ok" or CB_AFTER in r.out:
+        res["verdict"] = "continued"
+    else:
+        res["verdict"] = "stopped"
+    return res
+
+
 def run(ctx):
     out = core.Outcome()
     cat = catalogue(thorough=not ctx.quick)
@@ -935,6 +973,26 @@ def run(ctx):
         if res["sample"] and len(out.samples) < 4 and res["sample"]["method"] not in [s["method"] for s in out.samples]:
             out.samples.append(res["sample"])
         devs.extend(res["deviations"])
+    cb_cov = {"scripts": 0, "stopped": 0, "rejected_by_compiler": []}
+    for status, res in core.pmap(work_callback, callback_scripts(), chunksize=4):
+        if status != "ok":
+            out.inconclusive.append(str(res)[-300:])
+            continue
+        cb_cov["scripts"] += 1
+        if res["verdict"] == "inconclusive":
+            out.inconclusive.append("callback script %s: timeout" % res["id"])
+        elif res["verdict"] == "rejected":
+            cb_cov["rejected_by_compiler"].append(res["id"])
+        elif res["verdict"] == "stopped":
+            cb_cov["stopped"] += 1
+            out.evaluations += 1
+            out.distinct.add(core.h(["callback", res["id"]]))
+        else:
+            out.evaluations += 1
+            out.violations.append(core.Violation("C14:%s:continued_after_domain_error" % res["id"],
+                                                 "an out-of-domain built-in call inside a list callback did not stop the program (%s)" % res["id"],
+                                                 {"files": res["files"], "run": res["run"]}))
+    agg["out_of_domain_calls_inside_callbacks"] = cb_cov
     # one violation per signature; witness = the catalogue case with the shortest program
     by_sig = {}
     for d in devs:
